@@ -321,14 +321,14 @@ pub struct World {
     pub leak_allowed: bool,
 }
 
-fn ids_fmt(v: &mut Vec<u64>) -> String {
+pub fn ids_fmt(v: &mut Vec<u64>) -> String {
     if v.is_empty() {
         return "-".into();
     }
     v.sort_unstable();
     v.iter().map(|x| x.to_string()).collect::<Vec<_>>().join(",")
 }
-fn keys_fmt(v: &[u64]) -> String {
+pub fn keys_fmt(v: &[u64]) -> String {
     if v.is_empty() {
         return "-".into();
     }
@@ -406,16 +406,16 @@ pub fn phase_of(o: &Obs) -> &'static str {
     }
 }
 
-struct CallResult<R> {
-    r: Result<R, String>,
-    dh: u64,
-    da: u64,
-    df: u64,
-    dropped: Vec<u64>,
-    callbacks: u64,
+pub struct CallResult<R> {
+    pub r: Result<R, String>,
+    pub dh: u64,
+    pub da: u64,
+    pub df: u64,
+    pub dropped: Vec<u64>,
+    pub callbacks: u64,
 }
 
-fn windowed<R>(f: impl FnOnce() -> R) -> CallResult<R> {
+pub fn windowed<R>(f: impl FnOnce() -> R) -> CallResult<R> {
     LAST_PANIC.with(|p| p.borrow_mut().clear());
     open_window();
     alloc::arm();
